@@ -130,3 +130,183 @@ theorem goodItems_bodyOfComp {env : REnv} {PO : String → Option (List String)}
   · subst h; trivial
 
 end Tera.Reg
+
+namespace Tera.Reg
+
+theorem andThen_no_lookup_failure {a : Except RErr String} {b : Unit → Except RErr String}
+    (ha : ¬ LookupFailure a) (hb : ¬ LookupFailure (b ())) : ¬ LookupFailure (andThen a b) := by
+  unfold andThen
+  cases a with
+  | error e => exact ha
+  | ok out =>
+    cases hk : b () with
+    | error e => rw [hk] at hb; exact hb
+    | ok r => simp [LookupFailure]
+
+theorem topEntry_mem : ∀ (bs : List BlockEntry) (n : String) (v : List String × Nat),
+    topEntry bs n = some v → ∃ e ∈ bs, e.1 = n ∧ e.2 = v := by
+  intro bs
+  induction bs with
+  | nil => intro n v h; simp [topEntry] at h
+  | cons e rest ih =>
+    intro n v h
+    unfold topEntry at h
+    by_cases he : e.1 = n
+    · simp only [he, if_true, Option.some.injEq] at h
+      exact ⟨e, by simp, he, h⟩
+    · simp only [he, if_false] at h
+      obtain ⟨e', h1, h2, h3⟩ := ih n v h
+      exact ⟨e', by simp [h1], h2, h3⟩
+
+theorem mem_setTopLevel : ∀ (bs : List BlockEntry) (n : String) (l : Nat) (e' : BlockEntry),
+    e' ∈ setTopLevel bs n l → ∃ e ∈ bs, e'.1 = e.1 ∧ e'.2.1 = e.2.1 := by
+  intro bs
+  induction bs with
+  | nil => intro n l e' h; simp [setTopLevel] at h
+  | cons e rest ih =>
+    intro n l e' h
+    unfold setTopLevel at h
+    by_cases he : e.1 = n
+    · simp only [he, if_true, List.mem_cons] at h
+      rcases h with h | h
+      · exact ⟨e, by simp, by rw [h]; exact he.symm, by rw [h]⟩
+      · exact ⟨e', by simp [h], rfl, rfl⟩
+    · simp only [he, if_false, List.mem_cons] at h
+      rcases h with h | h
+      · exact ⟨e, by simp, by rw [h], by rw [h]⟩
+      · obtain ⟨e0, h1, h2, h3⟩ := ih n l e' h
+        exact ⟨e0, by simp [h1], h2, h3⟩
+
+/-- the block stack invariant, with "the current block has an entry" -/
+def CtxOK' (env : REnv) (PO : String → Option (List String)) (V : String) (ctx : RCtx) : Prop :=
+  CtxOK env PO V ctx ∧ ∀ cb, ctx.cur = some cb → (topEntry ctx.blocks cb).isSome = true
+
+theorem blockBody_of_defines {env : REnv} {x b : String} (h : (definesBlock env.S x b).isSome = true) :
+    ∃ ot bd, get env.S x = some ot ∧ ot.findBlock b = some bd ∧ blockBody env x b = some (bodyOfBlock ot bd) := by
+  unfold definesBlock at h
+  cases hg : get env.S x with
+  | none => simp [hg] at h
+  | some ot =>
+    simp only [hg] at h
+    cases hf : ot.findBlock b with
+    | none => simp [hf] at h
+    | some bd => exact ⟨ot, bd, rfl, hf, by simp [blockBody, hg, hf]⟩
+
+theorem findBlock_mem {ot : Tpl} {b : String} {bd : BlockDef} (h : ot.findBlock b = some bd) :
+    bd ∈ ot.blocks ∧ bd.name = b := by
+  unfold Tpl.findBlock at h
+  exact ⟨List.mem_of_find?_eq_some h, by simpa using List.find?_some h⟩
+
+theorem runItems_no_lookup_failure (env : REnv) (PO : String → Option (List String)) (hv : EnvValid env PO)
+    (rec : RCtx → List RItem → Except RErr String)
+    (hrec : ∀ V ctx body, CtxOK' env PO V ctx → GoodItems env PO V body → ¬ LookupFailure (rec ctx body)) :
+    ∀ (items : List RItem) (V : String) (ctx : RCtx), CtxOK' env PO V ctx → GoodItems env PO V items →
+      ¬ LookupFailure (runItems env rec ctx items) := by
+  intro items
+  induction items with
+  | nil => intro V ctx _ _; simp [runItems, LookupFailure]
+  | cons it rest ih =>
+    intro V ctx hctx hgood
+    have hrest := ih V ctx hctx (fun x hx => hgood x (by simp [hx]))
+    have hit := hgood it (by simp)
+    obtain ⟨⟨hview, hVreg, hstack⟩, hcur⟩ := hctx
+    cases it with
+    | text s =>
+      simp only [runItems]
+      exact andThen_no_lookup_failure (by simp [LookupFailure]) hrest
+    | inc n =>
+      obtain ⟨r, u, hr, hu⟩ := hit
+      simp only [runItems, hr, hu]
+      have hn := get_name hu
+      have hureg : has env.S u.name = true := has_iff_get.mpr ⟨u, by rw [hn]; exact hu⟩
+      obtain ⟨p, hp⟩ := hv.po u.name hureg
+      apply andThen_no_lookup_failure _ hrest
+      apply hrec u.name
+      · exact ⟨⟨rfl, hureg, by intro e he; cases he⟩, by intro cb h; cases h⟩
+      · exact goodItems_bodyOfTpl (O := u.name) hv hp (by simp [chainOf]) (by rw [hn]; exact hu)
+    | blk b =>
+      obtain ⟨p, O, ot, bd, hp, hO, hot, hbd, rfl⟩ := hit
+      obtain ⟨o, l, hl, hmem⟩ := hv.blk V p hVreg hp O hO ot hot bd hbd
+      simp only [runItems, hview, hl]
+      obtain ⟨oo, bb, hgo, hfb, hbody⟩ := blockBody_of_defines (hmem o (by simp)).2
+      simp only [hbody]
+      apply andThen_no_lookup_failure _ hrest
+      apply hrec V
+      · refine ⟨⟨rfl, hVreg, ?_⟩, ?_⟩
+        · intro e he x hx
+          rcases List.mem_cons.mp he with h | h
+          · subst h
+            obtain ⟨hx1, hx2⟩ := hmem x hx
+            obtain ⟨xo, xb, hgx, hfx, _⟩ := blockBody_of_defines hx2
+            exact ⟨p, xo, xb, hp, hx1, hgx, hfx⟩
+          · exact hstack e h x hx
+        · intro cb h
+          simp only [Option.some.injEq] at h
+          subst h
+          simp [topEntry]
+      · exact goodItems_bodyOfBlock hv hp (hmem o (by simp)).1 hgo (findBlock_mem hfb).1
+    | sup =>
+      simp only [runItems]
+      cases hc : ctx.cur with
+      | none => simp [LookupFailure]
+      | some cb =>
+        simp only
+        obtain ⟨v, hvt⟩ := Option.isSome_iff_exists.mp (hcur cb hc)
+        obtain ⟨L, lvl⟩ := v
+        simp only [hvt]
+        cases ho : L[lvl + 1]? with
+        | none => simp [LookupFailure]
+        | some o =>
+          simp only
+          obtain ⟨e, he, he1, he2⟩ := topEntry_mem _ _ _ hvt
+          have hoL : o ∈ e.2.1 := by rw [he2]; exact List.mem_of_getElem? ho
+          obtain ⟨p, ot, bd, hp, hch, hgo, hfb⟩ := hstack e he o hoL
+          rw [he1] at hfb
+          have hbody : blockBody env o cb = some (bodyOfBlock ot bd) := by simp [blockBody, hgo, hfb]
+          simp only [hbody]
+          apply andThen_no_lookup_failure _ hrest
+          apply hrec V
+          · refine ⟨⟨hview, hVreg, ?_⟩, ?_⟩
+            · intro e' he' x hx
+              obtain ⟨e0, h0, h1, h2⟩ := mem_setTopLevel _ _ _ e' he'
+              rw [h2] at hx
+              rw [h1]
+              exact hstack e0 h0 x hx
+            · intro cb' h
+              simp only [Option.some.injEq] at h
+              subst h
+              rw [topEntry_setTopLevel _ _ _ _ _ hvt]; rfl
+          · exact goodItems_bodyOfBlock hv hp hch hgo (findBlock_mem hfb).1
+    | comp c =>
+      obtain ⟨owner, ot, hown, hgo, hdef⟩ := hit
+      simp only [runItems]
+      by_cases hd : ctx.compDepth + 1 > MAX_COMPONENT_RECURSION_DEPTH
+      · simp [hd, LookupFailure]
+      · simp only [hd, if_false]
+        obtain ⟨cd, hcd, hcn⟩ := List.mem_map.mp hdef
+        have hfind : (ot.comps.find? (fun d => d.name == c)).isSome = true := by
+          rw [List.find?_isSome]; exact ⟨cd, hcd, by simp [hcn]⟩
+        obtain ⟨cd', hcd'⟩ := Option.isSome_iff_exists.mp hfind
+        have hbody : compBody env c = some (bodyOfComp ot cd') := by
+          unfold compBody
+          have : (env.comps.find? (fun e => e.1 == c)).map (·.2) = some owner := hown
+          simp [this, hgo, hcd']
+        simp only [hbody]
+        apply andThen_no_lookup_failure _ hrest
+        apply hrec V
+        · exact ⟨⟨hview, hVreg, by intro e he; cases he⟩, by intro cb h; cases h⟩
+        · have hn := get_name hgo
+          exact goodItems_bodyOfComp hv V (by rw [hn]; exact hgo) (List.mem_of_find?_eq_some hcd')
+
+theorem run_no_lookup_failure (env : REnv) (PO : String → Option (List String)) (hv : EnvValid env PO) :
+    ∀ (f : Nat) (V : String) (ctx : RCtx) (body : List RItem), CtxOK' env PO V ctx → GoodItems env PO V body →
+      ¬ LookupFailure (run env f ctx body) := by
+  intro f
+  induction f with
+  | zero => intro V ctx body _ _; simp [run, LookupFailure]
+  | succ f ih =>
+    intro V ctx body hc hg
+    unfold run
+    exact runItems_no_lookup_failure env PO hv (run env f) (fun V c b hc hg => ih V c b hc hg) body V ctx hc hg
+
+end Tera.Reg
